@@ -47,3 +47,31 @@ ben('ben-tasks_df-rename-local', ['C04'], ('chain.py', "        for name, task i
 
 MUTANTS = M
 BENIGN = B
+
+# ---------------------------------------------------------------------------------------------- C05
+mut('c05-prefix-json-direct', 'C05', 'R05.1', ('data.py', "        with self.tmp_path.open('w') as f:\n            json.dump(self.value, f, indent=2, sort_keys=True)\n        self._publish()",
+                                               "        json.dump(self.value, self.path.open('w'), indent=2, sort_keys=True)"))
+mut('c05-dirdata-copytree', 'C05', 'R05.1', ('data.py', "        shutil.move(str(self.tmp_path), str(self.path))\n        self._value = self._dir = self.path\n\n    def load(self, data_type: Type) -> Path:",
+                                             "        shutil.copytree(str(self.tmp_path), str(self.path))\n        shutil.rmtree(self.tmp_path)\n        self._value = self._dir = self.path\n\n    def load(self, data_type: Type) -> Path:"))
+mut('c05-publish-by-copy', 'C05', 'R05.1', ('data.py', "        os.replace(self.tmp_path, self.path)", "        shutil.copyfile(self.tmp_path, self.path)\n        os.remove(self.tmp_path)"))
+mut('c05-lazy-direct', 'C05', 'R05.1', ('data.py', "        write_jsons(value, self.tmp_path)\n        shutil.move(str(self.tmp_path), str(self.path))", "        write_jsons(value, self.path)"))
+mut('c05-numpy-list-late-write', 'C05', 'R05.1', ('data.py', "        shutil.move(str(self.tmp_path), str(self.path))\n\n    def load(self, data_type: Type) -> Any:\n        self._value = []",
+                                                  "        shutil.move(str(self.tmp_path), str(self.path))\n        np.save(str(self.path / 'count.npy'), len(self.value))\n\n    def load(self, data_type: Type) -> Any:\n        self._value = []"))
+mut('c05-handler-no-reset', 'C05', 'R05.2', ('task.py', "                    self._data.on_run_error()\n                    self._data = None\n", "                    self._data.on_run_error()\n"))
+mut('c05-handler-no-on_run_error', 'C05', 'R05.2', ('task.py', "                    self._data.on_run_error()\n                    self._data = None\n", "                    self._data = None\n"))
+mut('c05-handler-swallows', 'C05', 'R05.2', ('task.py', "                    self._data = None\n                raise error\n", "                    self._data = None\n                self.logger.error(error)\n                return None\n"))
+mut('c05-process-result-outside-try', 'C05', 'R05.2', ('task.py', "                self._process_run_result(run_result)\n            except Exception as error:\n                if self._data:\n                    self._data.on_run_error()\n                    self._data = None\n                raise error\n",
+                                                        "            except Exception as error:\n                if self._data:\n                    self._data.on_run_error()\n                    self._data = None\n                raise error\n            self._process_run_result(run_result)\n"))
+mut('c05-mismatch-saved', 'C05', 'R05.3', ('task.py', "            if not issubclass(self.data_class, InMemoryData):\n                raise ValueError(\n                    f'{fullname(self.__class__)}: When ignoring return type mismatch, InMemoryData data class is required.'\n                )\n", ""))
+mut('c05-dir-error-rmtree', 'C05', 'R05.4', ('data.py', "        if self.error_path.exists():\n            shutil.rmtree(self.error_path)\n        shutil.move(str(self.tmp_path), str(self.error_path))", "        shutil.rmtree(self.tmp_path)"))
+mut('c05-continues-init-cleans', 'C05', 'R05.4', ('data.py', "        if not self.tmp_path.exists():\n            self.tmp_path.mkdir()\n        self._dir = self.tmp_path",
+                                                   "        if self.tmp_path.exists():\n            shutil.rmtree(self.tmp_path)\n        self.tmp_path.mkdir()\n        self._dir = self.tmp_path"))
+mut('c05-new-class-direct-write', 'C05', 'R05.1', ('data.py', "class GeneratedDataLazy(FileData):", "class TextData(FileData):\n    @property\n    def extension(self):\n        return 'txt'\n\n    def save(self):\n        self.path.write_text(self.value)\n\n    def load(self, data_type):\n        self._value = self.path.read_text()\n        return self._value\n\n\nclass GeneratedDataLazy(FileData):"))
+
+ben('ben-json-save-local-tmp', ['C05', 'C06', 'C12'], ('data.py', "        with self.tmp_path.open('w') as f:\n            json.dump(self.value, f, indent=2, sort_keys=True)\n        self._publish()",
+                                         "        tmp = self.tmp_path\n        with tmp.open('w') as f:\n            json.dump(self.value, f, indent=2, sort_keys=True)\n        self._publish()"))
+ben('ben-publish-path-replace', ['C05', 'C06'], ('data.py', "        os.replace(self.tmp_path, self.path)", "        self.tmp_path.replace(self.path)"))
+ben('ben-handler-reorder', ['C05', 'C18', 'C04'], ('task.py', "                if self._data:\n                    self._data.on_run_error()\n                    self._data = None\n",
+                                     "                if self._data:\n                    failed = self._data\n                    self._data = None\n                    failed.on_run_error()\n"))
+ben('ben-handler-bare-raise', ['C05', 'C18'], ('task.py', "                    self._data = None\n                raise error\n", "                    self._data = None\n                raise\n"))
+ben('ben-save-extra-log', ['C05'], ('task.py', "        if self._data.is_persisting:\n            self._data.save()", "        if self._data.is_persisting:\n            self.logger.debug('saving')\n            self._data.save()"))
